@@ -284,6 +284,55 @@ func runC10(c *Ctx) {
 			c.check(got == want, "R1", "synthesized request for "+tn, p.Pos(body.Instrs[0].Pos()), fmt.Sprintf("Method %q", got), fmt.Sprintf("%s is served with Method %q, documented %q", tn, got, want))
 			if lit != nil {
 				// R2/R3 for the literal's paths
+				wantFields := map[string][]string{
+					"sshFxpExtendedPacketPosixRename": {"Filepath", "Target"},
+					"sshFxpExtendedPacketStatVFS":     {"Filepath"},
+					"sshFxpFstatPacket":               {"Filepath"},
+					"sshFxpFsetstatPacket":            {"Filepath"},
+				}[tn]
+				for _, f := range wantFields {
+					// the field is set, and set on every path from the literal to the call that hands it to the handler
+					// (a store under a condition — `if target != "" { … }` — leaves the handler with an empty path)
+					lit, f := lit, f
+					isStore := func(in ssa.Instruction) bool {
+						st, ok := in.(*ssa.Store)
+						if !ok {
+							return false
+						}
+						fa, ok := st.Addr.(*ssa.FieldAddr)
+						if !ok || fa.X != ssa.Value(lit) {
+							return false
+						}
+						_, n, _, _ := fieldOf(fa)
+						return n == f
+					}
+					isUse := func(in ssa.Instruction) bool {
+						cc := callOf(in)
+						if cc == nil {
+							return false
+						}
+						all := append([]ssa.Value{}, argsOf(cc)...)
+						if r := recvOf(cc); r != nil {
+							all = append(all, r)
+						}
+						for _, a := range all {
+							if a == ssa.Value(lit) {
+								return true
+							}
+							if isPtrToNamed(a.Type(), "Request") {
+								for _, l := range leavesOf(a) {
+									if l.V == ssa.Value(lit) {
+										return true
+									}
+								}
+							}
+						}
+						return false
+					}
+					always := len(findInstrs(worker, isStore)) > 0 && !reachAvoiding(worker, lit, isUse, isStore)
+					c.check(always, "R3", f+" of the synthesized request for "+tn+" is always set", pos(lit), "stored on every path to the handler call",
+						"the "+tn+" request can reach the handler without its "+f+" having been set (the store is missing or under a condition): the handler gets an empty path instead of the resolved one")
+				}
 				for _, f := range []string{"Filepath", "Target"} {
 					if v := litField(lit, f); v != nil {
 						prov := cleanProvenance(p, v, 0)
